@@ -53,11 +53,30 @@ def pass_through_classes():
     return [c for c in cl if is_pt(c)]
 
 
+def router_tests():
+    """(keys of RouterCase.TEST_VALIDATIONS in source order, sorted NO_ARGS_TESTS)"""
+    mod = _parse("rapidpro/models/routers.py")
+    tests = noargs = None
+    for n in ast.walk(mod):
+        if isinstance(n, ast.ClassDef) and n.name == "RouterCase":
+            for m in n.body:
+                if isinstance(m, ast.Assign) and isinstance(m.targets[0], ast.Name):
+                    if m.targets[0].id == "TEST_VALIDATIONS":
+                        tests = [k.value for k in m.value.keys]
+                    elif m.targets[0].id == "NO_ARGS_TESTS":
+                        noargs = sorted(ast.literal_eval(m.value))
+    assert tests and noargs
+    return tests, noargs
+
+
 def tables() -> str:
     pairs = action_map()
+    tests, noargs = router_tests()
     pt = set(pass_through_classes())
     return (
         "def actionTypes : List (List Char) := " + lean_str_list([k for k, _ in pairs]) + "\n"
         "def actionPassThrough : List (List Char) := " + lean_str_list([k for k, c in pairs if c in pt]) + "\n"
+        "def routerTests : List (List Char) := " + lean_str_list(tests) + "\n"
+        "def routerNoArgTests : List (List Char) := " + lean_str_list(noargs) + "\n"
         "def actionClasses : List (List Char × List Char) := [" + ", ".join(f"({lean_str(k)}, {lean_str(c)})" for k, c in pairs) + "]\n"
     )
